@@ -22,21 +22,33 @@ func (f File) customRecordTypes() map[string]struct{} {
 	return out
 }
 
+// usedTypes lists the types named by the records this file generates. Records
+// with a Namespace belong to a separately generated import: their code, and
+// whatever it needs to import, lives in the other package.
 func (f File) usedTypes() map[string]bool {
 	out := make(map[string]bool)
 	for _, st := range f.Structs {
+		if st.Namespace != "" {
+			continue
+		}
 		stOut := st.usedTypes()
 		for k, v := range stOut {
 			out[k] = v
 		}
 	}
 	for _, msg := range f.Messages {
+		if msg.Namespace != "" {
+			continue
+		}
 		msgOut := msg.usedTypes()
 		for k, v := range msgOut {
 			out[k] = v
 		}
 	}
 	for _, union := range f.Unions {
+		if union.Namespace != "" {
+			continue
+		}
 		unionOut := union.usedTypes()
 		for k, v := range unionOut {
 			out[k] = v
